@@ -311,3 +311,68 @@ def install_status_watch() -> StatusWatch:
 def engine_threads() -> List[threading.Thread]:
     return [t for t in threading.enumerate()
             if t.name.startswith(("after-", "send-", "actor-")) and t.is_alive()]
+
+
+# ---------------------------------------------------------------------------
+# harness-side wrappers on the engines' task methods (counted; zero => inconclusive)
+# ---------------------------------------------------------------------------
+SINK: Dict[str, Any] = {"log": None}
+WRAP_COUNTS: Dict[str, int] = {}
+
+
+def _emit(rec):
+    lg = SINK["log"]
+    if lg is not None:
+        lg.append(rec)
+
+
+def install_task_wrappers():
+    """Wraps _after_timer/_invoke_service/_cancel_state_tasks/_schedule_state_tasks on both
+    engines so that arm / cancel / invoke calls appear in the Recorder log:
+      ("arm", owner_id, delay_sec, after_event)   ("cancel", state_id)
+      ("invoke", owner_id, invocation)            ("sched", state_id)
+    """
+    from xstate_statemachine.base_interpreter import BaseInterpreter
+    if getattr(BaseInterpreter, "_xsv_wrapped", False):
+        return
+    BaseInterpreter._xsv_wrapped = True
+
+    def bump(k):
+        WRAP_COUNTS[k] = WRAP_COUNTS.get(k, 0) + 1
+
+    for cls in (SyncInterpreter, Interpreter):
+        orig_after = cls.__dict__.get("_after_timer")
+        if orig_after is not None:
+            def _after(self, delay_sec, event, owner_id, _o=orig_after):
+                bump("after_timer")
+                _emit(("arm", owner_id, delay_sec, event, self))
+                return _o(self, delay_sec, event, owner_id)
+            cls._after_timer = _after
+        orig_inv = cls.__dict__.get("_invoke_service")
+        if orig_inv is not None:
+            def _inv(self, invocation, service, owner_id, _o=orig_inv):
+                bump("invoke_service")
+                _emit(("invoke", owner_id, invocation, self))
+                return _o(self, invocation, service, owner_id)
+            cls._invoke_service = _inv
+    oc = SyncInterpreter.__dict__.get("_cancel_state_tasks")
+    if oc is not None:
+        def _cancel_sync(self, state, _o=oc):
+            bump("cancel_state_tasks")
+            _emit(("cancel", state.id, self))
+            return _o(self, state)
+        SyncInterpreter._cancel_state_tasks = _cancel_sync
+    oa = Interpreter.__dict__.get("_cancel_state_tasks")
+    if oa is not None:
+        async def _cancel_async(self, state, _o=oa):
+            bump("cancel_state_tasks")
+            _emit(("cancel", state.id, self))
+            return await _o(self, state)
+        Interpreter._cancel_state_tasks = _cancel_async
+    os_ = BaseInterpreter.__dict__.get("_schedule_state_tasks")
+    if os_ is not None:
+        def _sched(self, state, _o=os_):
+            bump("schedule_state_tasks")
+            _emit(("sched", state.id, self))
+            return _o(self, state)
+        BaseInterpreter._schedule_state_tasks = _sched
